@@ -26,6 +26,7 @@ TV = {
     'C01': ('translation_validation', 'per generated EBNF specification, the productions the real spec.Parse derives are compared with the EBNF denotation over one symbolic sentence up to a length bound, from start and from every user rule (both sides least fixed points); plus structural obligations (no empty names, every used non-terminal has a production)', '§7 C01'),
     'C02': ('translation_validation', 'per generated pattern, the real regexToDFA automaton is compared with the documented meaning over one symbolic word up to a length bound (span-matrix denotation), and every pipeline stage (NFA, ToDFA, Minimize, EliminateDeadStates, ReindexStates) with its predecessor by an inductive bisimulation step over all code points (no length bound)', '§7 C02'),
     'C03': ('translation_validation', 'per generated definition set, the real Spec.DFA combined automaton and terminal map are compared with the documented winner rule over one symbolic word up to a length bound, the conflict report is justified or refuted by a solver witness, and the whole automaton is compared without length bound with the labelled product of independently built reference automata', '§7 C03'),
+    'C06': ('translation_validation', 'PARTIAL: per corpus grammar the real LALR table (or conflict report) is obtained; the standard shift-reduce run over it (unrolled bit-vector machine) is compared with CFG membership / precedence-aware membership over one symbolic sentence up to a length bound, reductions are checked against the declared levels and associativities, accepted grammars are searched for an ambiguity witness and rejected ones must have one or be a literature-labelled family. Not decided: that every LALR(1) grammar is accepted', '§7 C06'),
     'C10': ('translation_validation', 'per generated pattern, the directly constructed automaton is compared with the documented meaning (symbolic word up to a length bound) and with the NFA-route automaton by an inductive bisimulation step over all code points except U+0000 (no length bound)', '§7 C10'),
 }
 
